@@ -83,11 +83,23 @@ class CallMixin:
         if obj.pt == "any":
             if attr in ("__name__", "__module__", "__mro__"):
                 return self.class_attr(SV(obj.t, "class"), attr, st, fr, node)
+            root = self.unique_method_root(attr)
+            if root is not None:
+                return self.get_attr(SV(obj.t, "obj:" + root), attr, st, fr, node)
             return self.read_attr(obj, attr, st, fr)
         if obj.pt == "none":
             self.may_raise(st, fr, "AttributeError", z3.BoolVal(False), node, "none-attr")
             return self.fresh_sv("undef")
         raise Untranslatable(f"attribute {attr} of {obj.pt}")
+
+    def unique_method_root(self, attr: str):
+        """the single most-basic repository class that defines method `attr` (duck-typed call on a value of unknown class)"""
+        cache = self.__dict__.setdefault("_umr", {})
+        if attr not in cache:
+            definers = [c for c, ci in self.repo.classes.items() if "." not in c and attr in ci.methods and "property" not in ci.methods[attr].decorators]
+            roots = [c for c in definers if not any(d != c and d in self.repo.classes[c].mro for d in definers)]
+            cache[attr] = roots[0] if len(roots) == 1 else None
+        return cache[attr]
 
     def instance_assigns(self, cls: str, attr: str) -> bool:
         key = (cls, attr)
